@@ -23,6 +23,7 @@
 #include <QFile>
 #include <QFileInfo>
 #include <QFileInfoList>
+#include <QPointer>
 #include <QUrl>
 
 #include <qhttpengine/filesystemhandler.h>
@@ -89,8 +90,13 @@ void FilesystemHandlerPrivate::processFile(Socket *socket, const QString &absolu
     QIODeviceCopier *copier = new QIODeviceCopier(file, socket);
     connect(copier, &QIODeviceCopier::finished, copier, &QIODeviceCopier::deleteLater);
     connect(copier, &QIODeviceCopier::finished, file, &QFile::deleteLater);
-    connect(copier, &QIODeviceCopier::finished, [socket]() {
-        socket->close();
+    // (the copier also finishes when the socket is destroyed under it, in
+    // which case the socket must no longer be touched)
+    QPointer<Socket> guardedSocket(socket);
+    connect(copier, &QIODeviceCopier::finished, [guardedSocket]() {
+        if (guardedSocket) {
+            guardedSocket->close();
+        }
     });
 
     // Stop the copier if the socket is disconnected
